@@ -14,14 +14,14 @@ from ..models import msmref as mr
 ID = 'C12'
 POISON_WORD = 0x7ff8000000000000
 RULE = ('strongly connected count matrices: all n=2 over {0..3}, all n=3 over {0,1,2} (Q: compiled on all, python on every '
-        '3rd; T: both on all, + n=3 over {0,1,5} and {0,1,50}, n=4 binary) x scalings {1,0.5,1e-3,1e3} (scalings on every '
+        '3rd; T: both on all, + n=3 over {0,1,5} and {0,1,50}, n=4 binary) + sampled n=3 matrices over {0,1,1e3,1e6} (six orders of magnitude) x scalings {1,0.5,1e-3,1e3} (scalings on every '
         '4th matrix) x {compiled _mle_prinz_dense, python _prinz_mle_py, public mle(dense), mle(csr)} x max_iter cap {1,2}; '
         'state=(matrix,scale,implementation); non-trivial = asymmetric matrix with a zero entry')
 ASSUMPTIONS = ['Prinz self-consistency residual tolerance 1e-4*sum(C) (estimator stops on 1e-10 change of its pseudo-likelihood)',
                'likelihood optimality checked against the transpose estimate and the finite family X +- delta*E_ij, '
                'delta in {1e-3,1e-2}*x_ij over every pair in the support (coordinate-wise optimality), slack 1e-8*sum(C)',
                'python vs compiled agreement tolerance 1e-4: both stop on a 1e-10 change of a (non-monotone) pseudo-likelihood evaluated with log vs log10, so they may stop a few sweeps apart; measured: compiled stops after 5 sweeps, 1.07e-5 from the fixed point on C=[[1,2,1],[2,0,1],[2,2,1]]']
-GUARDS = {'asymmetric': 500, 'with_zero_entry': 500, 'self_counts': 500, 'maxiter_cap_hit': 100, 'scaled': 100,
+GUARDS = {'wide_range': 50, 'asymmetric': 500, 'with_zero_entry': 500, 'self_counts': 500, 'maxiter_cap_hit': 100, 'scaled': 100,
           'python_impl': 500, 'compiled_impl': 500, 'csr': 100}
 NSH = {'quick': 64, 'thorough': 256}
 
@@ -46,7 +46,18 @@ def matrices(tier):
         for C in mr.all_matrices(3, (0, 1, 50)):
             if (C == 50).sum() == 2 and (C == 1).sum() >= 3:
                 out.append(C)
-    return [C for C in out if mr.strongly_connected(C)]
+    out = [C for C in out if mr.strongly_connected(C)]
+    # counts spanning six orders of magnitude (a state entered very often that is left rarely, ...)
+    wide = []
+    k = 0
+    for C in mr.all_matrices(3, (0, 1, 1000, 10 ** 6)):
+        if C.max() == 10 ** 6 and (C == 1).any() and mr.strongly_connected(C):
+            k += 1
+            if k % (41 if tier == 'quick' else 5) == 0:
+                wide.append(C)
+    wide.append(np.array([[0, 717876, 0], [1, 567228, 1], [1157731, 0, 0]]))
+    wide.append(np.array([[10, 4500000, 0, 0], [3, 1, 2000, 0], [0, 5, 1, 70000], [1, 0, 9, 20]]))
+    return out + wide
 
 
 def shards(tier, seed):
@@ -122,11 +133,21 @@ def check_case(case, ctx, cache=None):
         try:
             T, pi = run_impl(impl, C)
         except Exception as e:
-            ctx.violation('mle_%s:raises:%s' % (impl, type(e).__name__), case, '%s raised %r on %r' % (impl, e, case))
+            nz = C[C > 0]
+            wide = nz.max() / nz.min() >= 1e5
+            detail = ''
+            if wide:
+                ctx.guard('wide_range')
+                # a row of X collapsing to 0 (NaN row in T) vs. any other internal failure
+                detail = ':wide_range:' + ('nan_row' if 'nan' in str(e).lower() else 'other')
+            ctx.violation('mle_%s:raises:%s%s' % (impl, type(e).__name__, detail), case, '%s raised %r on %r' % (impl, e, case))
             return
     warned = any(issubclass(x.category, exception.ConvergenceWarning) for x in w)
     T = np.asarray(T, float)
     pi = np.asarray(pi, float).ravel()
+    nz = C[C > 0]
+    if nz.max() / nz.min() >= 1e5:
+        ctx.guard('wide_range')
     if T.shape != (n, n) or pi.shape != (n,) or not np.isfinite(T).all() or not np.isfinite(pi).all():
         ctx.violation('mle_%s:invalid_output' % impl, case, 'T=%r pi=%r' % (T.tolist(), pi.tolist()))
         return
@@ -171,7 +192,7 @@ def check_case(case, ctx, cache=None):
             ctx.maxi('max_py_vs_c', d)
             ctx.guard('python_impl')
             if d > 1e-4:
-                ctx.violation('mle:py_vs_c_disagree', case, 'python and compiled estimators differ by %g on %r' % (d, case))
+                ctx.violation('mle:py_vs_c_disagree' + (':wide_range' if nz.max() / nz.min() >= 1e5 else ''), case, 'python and compiled estimators differ by %g on %r' % (d, case))
         except Exception as e:
             ctx.violation('mle_py:raises:%s' % type(e).__name__, case, 'python estimator raised %r on %r' % (e, case))
 
